@@ -8,7 +8,7 @@ import gen_merge as G
 
 VARSIG = [['a', 'va', None], ['k', 'vk', None]]
 WORLD = {
-    'sigs': [['rec.f', VARSIG], ['rec.g', VARSIG],
+    'sigs': [['rec.f', VARSIG], ['rec.g', VARSIG], ['rec.none', VARSIG], ['rec.kw', VARSIG],
              ['sig.f1', [['a', 'pk', [0]], ['b', 'pk', [0]]]],
              ['sig.f2', [['a', 'pk', None], ['b', 'pk', ['B']], ['rest', 'va', None], ['k', 'ko', ['K']], ['kw', 'vk', None]]],
              ['sig.f3', [['x', 'pk', None], ['y', 'ko', None]]]],
@@ -22,12 +22,13 @@ P_OPS = 0.15    # share of list values written as !extend / !append
 GOOD_ARGS = {  # key sets that bind successfully
     'rec.f': [[], [0], [0, 1], ['p'], [0, 'p'], [0, 1, 2, 'q']],
     'rec.g': [[], [0], ['p', 'q'], [0, 1]],
+    'rec.none': [[], [0], ['p']], 'rec.kw': [[], ['p'], ['p', 'q'], ['a', 'z']],
     'sig.f1': [[], [0], [0, 1], ['a'], ['b'], ['a', 'b'], [0, 'b'], [1]],
     'sig.f2': [[0], ['a'], [0, 1], [0, 1, 2, 3], [0, 'k'], ['a', 'zz'], [0, 'b', 'k', 'w'], [0, 3]],
     'sig.f3': [[0, 'y'], ['x', 'y'], [0, 1]],
 }
 BAD_ARGS = {
-    'rec.f': [[1], [0, 2]], 'rec.g': [[2]], 'sig.f1': [[0, 'a'], [2], ['zz'], [0, 1, 2]], 'sig.f2': [[], ['b'], [0, 'a']],
+    'rec.f': [[1], [0, 2]], 'rec.g': [[2]], 'rec.none': [[1]], 'rec.kw': [[1]], 'sig.f1': [[0, 'a'], [2], ['zz'], [0, 1, 2]], 'sig.f2': [[], ['b'], [0, 'a']],
     'sig.f3': [[0], ['y'], [0, 'x', 'y'], [5]],
 }
 
@@ -45,7 +46,7 @@ def gen_val(rng, depth, p_unsafe, p_bad, dyn=True):
         return Hole('xref', kw)
     if dyn and r < 0.36:
         bad = rng.random() < p_bad
-        f = rng.choice(['rec.f', 'rec.f', 'rec.g', 'sig.f1', 'sig.f2', 'sig.f3'])
+        f = rng.choice(['rec.f', 'rec.f', 'rec.g', 'sig.f1', 'sig.f2', 'sig.f3', 'rec.none', 'rec.kw'])
         kind = rng.choice(['call', 'call', 'bind'])
         keys = rng.choice((BAD_ARGS if bad and rng.random() < 0.7 else GOOD_ARGS)[f])
         if bad and rng.random() < 0.3:
